@@ -849,6 +849,21 @@ private:
   }
   
 
+  // Called when the boolean v is redefined or forgotten: the entries
+  // "b implies v" recorded for other booleans b talk about the old
+  // value of v and must be dropped.
+  void forget_bool_in_implications(const variable_t &v) {
+    transform_if<bool_to_bools_env_t>(m_bool_to_bools,
+		 [&v](const bool_set_t &s) {
+		   if (s.is_top() || s.is_bottom()) return false;
+		   for (auto const &w: s) {
+		     if (w == v) return true;
+		   }
+		   return false;
+		 },
+		 [&v](bool_set_t &s) { s -= v;});
+  }
+
   // Called when v is about to be marked (again) as unchanged because
   // it occurs in the constraint that defines a boolean. If v was
   // modified since another boolean was defined with a constraint over
@@ -892,6 +907,7 @@ private:
     // x is redefined: forget the constraints of its previous definition
     m_bool_to_lincsts -= x;
     m_bool_to_refcsts -= x;
+    forget_bool_in_implications(x);
     if (cst.is_tautology()) {
       m_product.first().set_bool(x, boolean_value::get_true());
     } else if (cst.is_contradiction()) {
@@ -929,6 +945,7 @@ private:
     // x is redefined: forget the constraints of its previous definition
     m_bool_to_lincsts -= x;
     m_bool_to_refcsts -= x;
+    forget_bool_in_implications(x);
     if (cst.is_tautology()) {
       m_product.first().set_bool(x, boolean_value::get_true());
     } else if (cst.is_contradiction()) {
@@ -1315,9 +1332,9 @@ public:
       m_unchanged_vars -= v;
     }
 
-    transform_if(m_bool_to_bools,
-		 [&v](const bool_set_t &s) { return s.at(v);},
-		 [&v](bool_set_t &s) { s -= v;});
+    if (v.get_type().is_bool()) {
+      forget_bool_in_implications(v);
+    }
     
     // We should also remove any constraint in
     // m_bool_to_lincsts/m_bool_to_refcsts that involves v.  We don't
@@ -1381,6 +1398,9 @@ public:
     }
 
     m_product.assign_bool_var(x, y, is_negated);
+    if (!(x == y) || is_negated) {
+      forget_bool_in_implications(x);
+    }
     propagate_assign_bool_var(m_bool_to_lincsts, x, y, is_negated);
     propagate_assign_bool_var(m_bool_to_refcsts, x, y, is_negated);
     if (!is_negated) {
@@ -1433,6 +1453,7 @@ public:
 
     m_bool_to_lincsts -= x;
     m_bool_to_refcsts -= x;
+    forget_bool_in_implications(x);
     if (op == OP_BAND) {
       m_bool_to_bools.set(x, m_bool_to_bools.at(y) &
 			     m_bool_to_bools.at(z) &
@@ -1480,6 +1501,7 @@ public:
 	assign_bool_var(lhs, b1, false);
       } else {
 	m_product.select_bool(lhs, cond, b1, b2);
+	forget_bool_in_implications(lhs);
 	fwd_reduction_select_bool(lhs, cond, b1, b2);
 	auto val1 = m_product.first().get_bool(b1);
 	auto val2 = m_product.first().get_bool(b2);
